@@ -22,5 +22,6 @@ if [ -d tools/ga2coq ]; then
   ( cd tools/ga2coq && CARGO_TARGET_DIR=../../.build/ga2coq-target timeout 900 cargo build --offline --release >/dev/null 2>&1 ) || echo "ga2coq build failed"
 fi
 ( cd harness && CARGO_TARGET_DIR=../.build/harness-target timeout 3000 cargo build --offline --bins 2>&1 | grep -E "^error" -A8 | head -40 )
+( cd harness && CARGO_TARGET_DIR=../.build/harness-target-forms timeout 3000 cargo build --offline --features forms --bin c04 --bin c08 2>&1 | grep -E "^error" -A8 | head -40 )
 echo "setup done"
 exit 0
